@@ -240,8 +240,11 @@ func idemKey(a, b string) (string, string) {
 			kind := "layout"
 			if strings.Join(ta, "") != strings.Join(tb, "") {
 				kind = "text"
-			}
-			if strings.Contains(la[i], "//") || strings.Contains(la[i], "/*") || strings.Contains(la[i], "#") ||
+			} else if strings.Join(ta, " ") == strings.TrimSpace(lb[i]) && strings.Contains(strings.TrimSpace(la[i]), "  ") {
+				// the first pass padded a cell (tabwriter alignment derived from the line
+				// structure of the source); the second pass, seeing the joined lines, does not
+				kind = "alignment-padding-removed"
+			} else if strings.Contains(la[i], "//") || strings.Contains(la[i], "/*") || strings.Contains(la[i], "#") ||
 				strings.Contains(lb[i], "//") || strings.Contains(lb[i], "/*") {
 				kind += "-near-comment"
 			}
